@@ -8,6 +8,7 @@ package main
 import (
 	"bufio"
 	"bytes"
+	"crypto/ed25519"
 	"encoding/hex"
 	"encoding/json"
 	"fmt"
@@ -135,7 +136,8 @@ func buildReq(t []string) interface{} {
 }
 
 type fsmWorld struct {
-	store [][]byte // persisted dumps
+	keyRotations int
+	store        [][]byte // persisted dumps
 	last  *sm.FSMInstance
 	ops   *bufio.Writer
 	obs   *bufio.Writer
@@ -252,6 +254,20 @@ func (w *fsmWorld) create(id string) int {
 	return len(w.store) - 1
 }
 
+// keyNames: the user names of a round's key table, sorted
+func keyNames(inst *sm.FSMInstance) []string {
+	d := inst.FSMDump()
+	if d == nil || d.Payload == nil {
+		return nil
+	}
+	var out []string
+	for n := range d.Payload.PubKeys {
+		out = append(out, n)
+	}
+	sort.Strings(out)
+	return out
+}
+
 // do applies (ev,args) to a fresh restore of store[idx]; returns observation and whether ok.
 func (w *fsmWorld) do(idx int, ev string, args []string) (string, bool) {
 	inst, err := sm.FromDump(w.store[idx])
@@ -271,6 +287,24 @@ func (w *fsmWorld) do(idx int, ev string, args []string) (string, bool) {
 			if restored, e := sm.FromDump(bz); e == nil {
 				if a, b := canonPayload(inst), canonPayload(restored); a != b {
 					w.svcMon(fmt.Sprintf("C19 restore_identity: a round in %s (after %s %s) comes back from its dump different from what was in memory %s", dumpStateOf(bz), ev, truncate(strings.Join(args, " "), 100), firstDiff(a, b)))
+				}
+				// the one edit the node makes to a round outside the machines: a re-initialisation replaces a participant's
+				// communication key in the round's key table (reinitDKG: SetPubKeyUsername, Dump, SaveFSM). The round that
+				// comes back from that dump is the round with the replaced key
+				if names := keyNames(restored); len(names) > 0 && (len(w.store)+len(ev)+len(args))%8 == 0 {
+					name := names[(len(w.store)+len(ev))%len(names)]
+					rot := bytes.Repeat([]byte{0xC1}, ed25519.PublicKeySize)
+					restored.FSMDump().Payload.SetPubKeyUsername(name, rot)
+					if bz2, e := restored.Dump(); e == nil {
+						if again, e := sm.FromDump(bz2); e == nil {
+							w.keyRotations++
+							if a, b := canonPayload(restored), canonPayload(again); a != b {
+								w.svcMon(fmt.Sprintf("C19 restore_identity: a round in %s whose key table was edited as a re-initialisation does (the communication key of %s replaced), saved and loaded: what comes back differs from what was saved %s", dumpStateOf(bz), name, firstDiff(a, b)))
+							} else if k, e := again.GetPubKeyByUsername(name); e != nil || !bytes.Equal(k, rot) {
+								w.svcMon(fmt.Sprintf("C19 restore_identity: a round in %s whose key table was edited as a re-initialisation does, saved and loaded: the replaced communication key of %s is not the one the loaded round verifies with", dumpStateOf(bz), name))
+							}
+						}
+					}
 				}
 			}
 		}
